@@ -456,7 +456,8 @@ func (w *World) sessionInfo(ssn *framework.Session, evName string) {
 		qa := qs[common_info.QueueID(w.Sc.Queues[i].Name)]
 		if qa == nil {
 			out[i] = map[string]any{"present": 0, "fsG": 0, "desG": 0, "limG": 0, "allocG": 0, "npG": 0, "reqG": 0, "fsC": 0, "allocC": 0, "reqC": 0,
-				"fsM": 0, "allocM": 0, "desC": 0, "desM": 0, "w": 0, "useG": 0, "xG": 0, "xC": 0}
+				"fsM": 0, "allocM": 0, "desC": 0, "desM": 0, "w": 0, "useG": 0, "xG": 0, "xC": 0,
+				"limC": 0, "limM": 0, "reqM": 0, "useC": 0, "useM": 0, "xM": 0}
 			continue
 		}
 		g := qa.ResourceShare(rs.GpuResource)
@@ -467,7 +468,9 @@ func (w *World) sessionInfo(ssn *framework.Session, evName string) {
 			"fsC": int(c.FairShare + 0.5), "allocC": rnd(c.Allocated), "reqC": int(c.Request + 0.5),
 			"fsM": mb(mm.FairShare), "allocM": rnd(mm.Allocated / 1e6), "desC": unl(c.Deserved), "desM": mb(mm.Deserved),
 			"w": int(g.OverQuotaWeight), "useG": milli(g.Usage),
-			"xG": exact(g.FairShare * 1000), "xC": exact(c.FairShare)}
+			"xG": exact(g.FairShare * 1000), "xC": exact(c.FairShare),
+			"limC": unl(c.MaxAllowed), "limM": mb(mm.MaxAllowed), "reqM": mb(mm.Request), "useC": milli(c.Usage), "useM": milli(mm.Usage),
+			"xM": exact(mm.FairShare / 1e6)}
 	}
 	// node accounting of the fresh session (C14 at snapshot construction): Idle / Used / Releasing per node
 	nodes := make([]map[string]any, len(w.Sc.Nodes))
@@ -482,7 +485,7 @@ func (w *World) sessionInfo(ssn *framework.Session, evName string) {
 			"im": rnd(ni.Idle.Memory() / 1e6), "um": rnd(ni.Used.Memory() / 1e6), "rm": rnd(ni.Releasing.Memory() / 1e6),
 			"ig": rnd(ni.Idle.GPUs() * 1000), "rg": rnd(ni.Releasing.GPUs() * 1000), "np": len(ni.PodInfos)}
 	}
-	w.emit(map[string]any{"ev": evName, "q": out, "n": nodes, "totG": milli(tot[rs.GpuResource]), "totC": int(tot[rs.CpuResource] + 0.5), "k": milli(k)})
+	w.emit(map[string]any{"ev": evName, "q": out, "n": nodes, "totG": milli(tot[rs.GpuResource]), "totC": int(tot[rs.CpuResource] + 0.5), "totM": mb(tot[rs.MemoryResource]), "k": milli(k)})
 }
 
 func (w *World) stmtHook(s *framework.Statement, ev string, task *pod_info.PodInfo, arg string) {
